@@ -117,7 +117,7 @@ theorem detection_silent_without_cycle (atReply guard : Bool) (n m : Net) (l : N
     simp only [stepWith, stepOff, ← ha]
     cases hst : (n.asks t).st <;> simp only [] <;> try rfl
     · cases atReply <;> simp [obs, clear_fields, ha, hb, hd, ht, he]
-    · simp [obs, ha, hb, hd, ht, he]
+    · cases atReply <;> simp [obs, clear_fields, ha, hb, hd, ht, he]
   | resume t =>
     simp only [stepWith, stepOff, ← ha]
     cases hst : (n.asks t).st <;> simp only [] <;> try rfl
